@@ -78,13 +78,15 @@ class Check(PropertyCheck):
         r = self.rng
         reqs = []
         posted = []
+        related = 0
         for _ in range(n):
             k = r.below(15)
-            if k >= 12 and posted:
+            if k >= 12 and posted and related < 120:
+                related += 1
                 # a body related to an earlier one: answers must not be confused by shared length / prefix / suffix
                 b0 = r.choice(posted[-8:])
                 if len(b0) < 200 or r.chance(1, 2):
-                    b0 = (b0 + b"\n") * (r.range(4100, 20000) // (len(b0) + 1) + 1)
+                    b0 = (b0 + b"\n") * (r.range(4100, 9000) // (len(b0) + 1) + 1)
                     reqs.append(("POST", "/", b0, "utf8"))
                     posted.append(b0)
                 v = r.below(5)
